@@ -1,4 +1,5 @@
 import XmpModel.Sample
+import XmpModel.LoadPost
 /-! Native driver for the C20 correspondence.  Reads the case lines printed by
 harness/c20_sample.c and prints, per case, the loop-style model's result (`M`) and the
 closed-form specification's result (`S`) in the harness's canonical format:
@@ -8,6 +9,8 @@ closed-form specification's result (`S`) in the harness's canonical format:
 
 `pos = -1`: NULL handle.  `limit ≥ 0`: the handle is a callback handle whose read function delivers only
 `limit` bytes from `pos` on (model `loadS`/`Spec.loadS`); fields the property leaves open are printed as `?`.  The file handed to the real code is `filehex`, positioned at `pos`.
+`epi <id> <hasdata> <len> <lps> <lpe> <flg> <sus> <sue>` (a sample header entering libxmp_load_epilogue) is answered with
+`EM <id> <lps> <lpe> <flg>` from C03's `LoadPost.epilogueLoop`/`epilogueSmp` (imported read-only).
 The closed form is quadratic, it is evaluated only for allocations up to `specMax` bytes. -/
 open Xmp Xmp.Sample
 
@@ -71,6 +74,16 @@ partial def loop (h : IO.FS.Stream) (out : IO.FS.Stream) : IO Unit := do
   | ["case", id, flags, len, lps, lpe, flg, skip, pos, fhex, bhex, limit] =>
     let l := limit.toInt?.getD (-1)
     runCase out id flags len lps lpe flg skip pos fhex bhex (if l < 0 then none else some l.toNat)
+    loop h out
+  | ["epi", id, has, len, lps, lpe, flg, sus, sue] =>
+    -- one sample header as libxmp_load_epilogue found it: the loop block, then the sustain-loop block
+    let (fl, flb, fs, fb, o) := LoadPost.Sample.flagsOf (flg.toNat?.getD 0)
+    let s0 : LoadPost.Sample := { name := [], len := len.toInt?.getD 0, lps := lps.toInt?.getD 0, lpe := lpe.toInt?.getD 0,
+                                  floop := fl, floopBidir := flb, fsloop := fs, fsloopBidir := fb, other := o,
+                                  hasData := has != "0" }
+    let x : LoadPost.Xtra := { sus := sus.toInt?.getD 0, sue := sue.toInt?.getD 0 }
+    let s1 := (LoadPost.epilogueSmp (LoadPost.epilogueLoop s0) x).1
+    out.putStrLn s!"EM {id} {s1.lps} {s1.lpe} {s1.toFlg}"
     loop h out
   | _ => loop h out
 
